@@ -5,24 +5,37 @@ _ALL = ["TestVerifC11Handshake", "TestVerifC11ConnHandshake",
 
 PROP = dict(
     level="exploration",
-    rule=("A case is non-trivial when it is (a) a transport plan in which at "
-          "least one direction crosses a key rotation (>=500 messages = 1000 "
-          "encryptions) and had >=1 timeout-interrupted, resumed Flush in "
-          "that direction, or (b) a tamper case: a manipulated ciphertext "
-          "stream (flip/insert/delete/drop/truncate/swap/replay/reflect/"
-          "cross-session/appended bytes) or a handshake case whose three "
-          "acts were swept with corruptions or whose initiator targeted a "
-          "wrong static key. Honest controls (identical stream, fault-free "
-          "Conn handshake, short plans) are counted as trivial. Distinct = "
-          "distinct (keys, plan/manipulation) fingerprints."),
+    technique=("differential against an independent BOLT-8 reference (handshake acts, "
+               "transport ciphertext, rotation) written in the harness; scripted in-memory "
+               "pipe with partial writes/timeouts/segmented reads; generic first-deviation "
+               "oracle for manipulated ciphertext streams; direct (key, nonce) monitor on the "
+               "AEAD; native fuzzing of byte-decoded plans (thorough)"),
+    rule=("One case = one generated session. Machine level: (keys, bidirectional message "
+          "plan with per-message partial-write scripts) / (keys, honest prefix, 1-4 victim "
+          "frames, one manipulation, read API) / (keys, dialled key, every corruption of "
+          "each act). Conn level: Dial<->Listener handshake over an in-memory connection "
+          "with a wire fault, or a session of Write/WriteMessage+Flush/Read/ReadNext* "
+          "operations ending in a manipulation. A case is non-trivial when it is (a) a "
+          "transport plan in which at least one direction crosses a key rotation (>=500 "
+          "messages = 1000 encryptions) and had >=1 timeout-interrupted, resumed Flush in "
+          "that direction, or (b) a tamper case: a manipulated ciphertext stream "
+          "(flip/insert/delete/drop/truncate/swap/replay/reflect/cross-session/appended "
+          "bytes), a handshake whose acts were swept with corruptions or hit by a wire "
+          "fault, or an initiator dialling a wrong static key. Honest controls (identical "
+          "stream, fault-free handshake, plans without rotation or without partial flush) "
+          "are counted as trivial. Distinct = distinct (keys, plan / manipulation) "
+          "fingerprints."),
     assumptions=[
         "ChaCha20-Poly1305 forgeries and SHA-256/HKDF collisions do not occur (a manipulated frame or act that still authenticates is treated as impossible)",
-        "the AEAD primitive (x/crypto chacha20poly1305) is trusted; the reference re-implements the BOLT-8 protocol around it (handshake, nonce encoding, rotation, framing) with its own HKDF",
-        "nothing is asserted about reads after the first failed read (lnd disconnects; Decrypt advances the nonce on failure)",
-        "writers follow the io.Writer contract: a short write is accompanied by an error, and only timeout errors are resumed",
+        "the AEAD primitive (x/crypto chacha20poly1305) and btcec point multiplication are trusted; the reference re-implements the BOLT-8 protocol around them (handshake transcript, nonce encoding, rotation, framing) with its own HKDF",
+        "nothing is asserted about reads after the first failed read (lnd disconnects on a read error; Decrypt advances the nonce even on failure, so the streams are no longer synchronised)",
+        "writers follow the io.Writer contract (a short write comes with an error) and only timeout errors are resumed, as documented on Flush",
+        "a stream Read with only empty messages in flight has nothing to return and waits; the in-memory pipe reports that as 'would block', which is accepted",
+        "key rotation happens after 1000 encryptions = 500 messages per direction (BOLT-8 and the code); the statement's '1000-message rotations' is read that way",
     ],
     jobs=dict(
         quick=[
+            job("brontide", "^TestVerifC11(RefVectors|Pinned)$", ["TestVerifC11RefVectors", "TestVerifC11Pinned"], 1, shards=1),
             job("brontide", "^TestVerifC11Handshake$", ["TestVerifC11Handshake"], 300, shards=2),
             job("brontide", "^TestVerifC11ConnHandshake$", ["TestVerifC11ConnHandshake"], 3000, shards=2),
             job("brontide", "^TestVerifC11Transport$", ["TestVerifC11Transport"], 220, shards=5),
@@ -30,6 +43,7 @@ PROP = dict(
             job("brontide", "^TestVerifC11Conn$", ["TestVerifC11Conn"], 450, shards=3),
         ],
         thorough=[
+            job("brontide", "^TestVerifC11(RefVectors|Pinned)$", ["TestVerifC11RefVectors", "TestVerifC11Pinned"], 1, shards=1),
             job("brontide", "^TestVerifC11Handshake$", ["TestVerifC11Handshake"], 1200, shards=3, timeout=900),
             job("brontide", "^TestVerifC11ConnHandshake$", ["TestVerifC11ConnHandshake"], 15000, shards=2, timeout=900),
             job("brontide", "^TestVerifC11Transport$", ["TestVerifC11Transport"], 300, shards=5, timeout=900,
